@@ -47,8 +47,8 @@ struct upump_mgr;
 struct uprobe_upump_mgr {
     /** pointer to upump_mgr to provide */
     struct upump_mgr *upump_mgr;
-    /** true if the probe is frozen on this thread */
-    bool frozen;
+    /** number of nested freezes (the probe is frozen while non-zero) */
+    unsigned int frozen;
 
     /** structure exported to modules */
     struct uprobe uprobe;
